@@ -1,9 +1,23 @@
 #!/bin/sh
-# usage: tools/trypatch.sh <seeded dir> <Cxx> [<Cxx>...]: applies the patch to /repo, runs the checks, reverts
+# usage: tools/trypatch.sh <seeded dir> <Cxx> [<Cxx>...]: applies the patch to /repo, runs the checks, reverts.
+# The checks rewrite /verif/evidence/<id>.json on every run (they must: that is the interface), so the
+# evidence and replay directories are saved before the seeded run and restored after it - an evidence file
+# written against a seeded tree must never be left behind or committed (see DESIGN.md "Corrected false alarms").
 d="$1"; shift
 cd /repo && [ -z "$(git status --porcelain)" ] || { echo "REFUSING: /repo has uncommitted changes"; exit 3; }
+save=$(mktemp -d /var/tmp/verif-evidence-save.XXXXXX)
+cp -a /verif/evidence "$save/evidence"; [ -d /verif/replays ] && cp -a /verif/replays "$save/replays"
+restore() {
+  cd /repo && git checkout -- .
+  rm -rf /verif/evidence /verif/replays
+  mv "$save/evidence" /verif/evidence; [ -d "$save/replays" ] && mv "$save/replays" /verif/replays
+  rm -rf "$save"
+}
+trap restore EXIT INT TERM
 git apply "$d/patch.diff" || { echo "patch does not apply"; exit 2; }
 for id in "$@"; do
   (cd /verif && ./check "$id" 2>&1 | grep -E "VIOLATION|failed obligation|obligations," | cut -c1-260)
 done
-cd /repo && git checkout -- . && git status --short | head -3
+trap - EXIT INT TERM
+restore
+cd /repo && git status --short | head -3
